@@ -38,7 +38,7 @@ pub const N_CFG: usize = 8;
 const N_SHAPES: usize = 22;
 const QNAMES: &[&str] = &[
     "www.example.", "example.", "WwW.ExAmPlE.", "nosuch.example.", "x.wild.example.", "alias.example.", "chain1.example.", "deep.sub.example.", "big.example.",
-    "badns.example.", "badmx.example.", "badcname.example.", "badsrv.example.", "bada.example.", "badsoa.test.", "x.nosoa.test.", "nosoa.test.", "unloaded.test.", "failed.test.", "www.elsewhere.", ".",
+    "glue.test.", "deleg.glue.test.", "x.deleg.glue.test.", "y.glue.test.", "badns.example.", "badmx.example.", "badcname.example.", "badsrv.example.", "bada.example.", "badsoa.test.", "x.nosoa.test.", "nosoa.test.", "unloaded.test.", "failed.test.", "www.elsewhere.", ".",
 ];
 const QTYPES: &[u16] = &[wire::T_A, wire::T_ANY, wire::T_MX, wire::T_NS, wire::T_SOA, wire::T_TXT, wire::T_CNAME, 33, 252, 251, wire::T_AAAA];
 
@@ -150,7 +150,10 @@ pub fn base_message(i: usize) -> Vec<u8> {
         18 => sign(&wire::query_full(id, &qn, qt, wire::C_IN, 0, Some(1232)), wire::name("K.Example."), Alg::Sha256.name(), Some(10 + v % 23)),
         // answers larger than the negotiated size: big RRsets with a sweep of advertised sizes
         20 | 21 => {
-            let (n, t) = [("big.example.", wire::T_TXT), ("many.example.", wire::T_A), ("many.example.", wire::T_ANY), ("big.example.", wire::T_ANY)][v % 4];
+            let (n, t) = [
+                ("big.example.", wire::T_TXT), ("glue.test.", wire::T_NS), ("many.example.", wire::T_A), ("glue.test.", wire::T_MX),
+                ("x.deleg.glue.test.", wire::T_A), ("many.example.", wire::T_ANY), ("glue.test.", wire::T_ANY), ("big.example.", wire::T_ANY),
+            ][v % 8];
             let q = wire::query_full(id, &wire::name(n), t, wire::C_IN, 0, Some(512 + 41 * (v as u16 % 40)));
             if shape == 21 {
                 sign(&q, wire::name("k.example."), Alg::Sha256.name(), None)
@@ -212,6 +215,51 @@ fn corrupt_zone() -> Arc<quandary::db::HashMapTreeZone> {
     z.add("alias.example.", wire::T_CNAME, 60, &[]);
     z.finish()
 }
+/// A zone that makes the additional section work hard: many in-zone name servers and mail
+/// exchangers with addresses (sibling and nested names), and a delegation with much glue,
+/// so that truncation and roll-back happen at every alignment when the advertised size is swept.
+fn glue_zone(variant: u64) -> Arc<quandary::db::HashMapTreeZone> {
+    let mut r = SplitMix(0xC01 + variant);
+    let mut z = qz::ZoneBuilder::wide("glue.test.");
+    z.add("glue.test.", wire::T_SOA, 60, &wire::soa_rdata("ns01.glue.test.", "h.glue.test.", 1));
+    // more name servers than the writer keeps compression hints for, with sibling and nested
+    // names towards the end and address sets of varying size (so that, while the advertised
+    // size is swept, an RRset is rolled back and a *smaller* later one still fits)
+    let mut hosts: Vec<String> = (1..=14).map(|i| format!("ns{i:02}.glue.test.")).collect();
+    let tail = ["x.y.glue.test.", "z.y.glue.test.", "w.y.glue.test.", "ns19.glue.test.", "a.b.c.d.glue.test.", "ns21.y.glue.test.", "q.z.y.glue.test.", "ns23.glue.test."];
+    let mut order: Vec<usize> = (0..tail.len()).collect();
+    for i in (1..order.len()).rev() {
+        order.swap(i, r.below(i as u64 + 1) as usize);
+    }
+    hosts.extend(order.iter().map(|i| tail[*i].to_string()));
+    let mut addrs = |z: &mut qz::ZoneBuilder, hname: &str, tag: u8, i: u8, r: &mut SplitMix| {
+        for k in 0..(1 + r.below(3)) as u8 {
+            z.add(hname, wire::T_A, 60, &[10, tag, k, i]);
+        }
+        for k in 0..r.below(3) as u8 {
+            z.add(hname, wire::T_AAAA, 60, &[0x20, 1, 0xd, 0xb8, 0, 0, 0, 0, 0, 0, 0, 0, 0, tag, k, i]);
+        }
+    };
+    for (i, hname) in hosts.iter().enumerate() {
+        z.add("glue.test.", wire::T_NS, 60, &wire::name_wire(hname));
+        addrs(&mut z, hname, 9, i as u8, &mut r);
+    }
+    for i in 0..(8 + r.below(12)) as u8 {
+        let mx = format!("mx{i}.{}glue.test.", if r.below(2) == 0 { "" } else { "y." });
+        z.add("glue.test.", wire::T_MX, 60, &{
+            let mut v = vec![0, i];
+            v.extend(wire::name_wire(&mx));
+            v
+        });
+        addrs(&mut z, &mx, 8, i, &mut r);
+    }
+    for i in 0..(10 + r.below(12)) as u8 {
+        let ns = format!("n{i}.{}deleg.glue.test.", if r.below(3) == 0 { "k." } else { "" });
+        z.add("deleg.glue.test.", wire::T_NS, 60, &wire::name_wire(&ns));
+        addrs(&mut z, &ns, 7, i, &mut r);
+    }
+    z.finish()
+}
 fn nosoa_zone() -> Arc<quandary::db::HashMapTreeZone> {
     let mut z = qz::ZoneBuilder::new("nosoa.test.", wire::C_IN);
     z.add("nosoa.test.", wire::T_NS, 60, &wire::name_wire("ns.elsewhere."));
@@ -236,6 +284,7 @@ pub fn make_server(cfg: usize) -> Server<Cat> {
         }
         _ => {
             c.insert(Entry::Loaded(rich_zone(), ()));
+            c.insert(Entry::Loaded(glue_zone(cfg as u64), ()));
             c.insert(Entry::NotYetLoaded(qz::qname("unloaded.test."), Class::IN, ()));
             c.insert(Entry::FailedToLoad(qz::qname("failed.test."), Class::IN, ()));
             c.insert(Entry::Loaded(nosoa_zone(), ()));
@@ -266,12 +315,12 @@ impl Prop for C01 {
     type Scn = Scn;
     fn runs(tier: Tier) -> u64 {
         (match tier {
-            Tier::Quick => 60,
-            Tier::Thorough => 400,
+            Tier::Quick => 176,
+            Tier::Thorough => 880,
         }) * N_CFG as u64
     }
     fn gen(r: &mut SplitMix, tier: Tier, idx: u64) -> Scn {
-        Scn { msg: idx as usize / N_CFG, cfg: idx as usize % N_CFG, pair_seed: r.next(), pairs: if tier == Tier::Quick { 2_000 } else { 40_000 }, only: None }
+        Scn { msg: idx as usize / N_CFG, cfg: idx as usize % N_CFG, pair_seed: r.next(), pairs: if tier == Tier::Quick { 1_000 } else { 30_000 }, only: None }
     }
     fn plan(r: &mut SplitMix, _s: &Scn) -> ExecPlan {
         ExecPlan { seed: r.next(), strategy: Strategy::Random, clock: ClockPolicy::Des, max_steps: 50_000_000 }
@@ -301,7 +350,7 @@ impl Prop for C01 {
         format!("{file}|{masked}")
     }
     fn rule() -> String {
-        format!("one execution = one (request shape, server configuration) pair: {} shapes quick / 400 thorough (plain, EDNS with options and odd versions, big RRsets with swept payload sizes, TSIG-signed with known/unknown keys, truncated MACs and maximal 255-octet key/algorithm names, extra records in every section, compressed and mixed-case names, opcodes 0-15, QTYPE ANY/AXFR/IXFR/meta, QCLASS ANY/CH, NOTIFY/UPDATE-shaped, two questions, misplaced OPT/TSIG, header only) x {} configurations (empty catalog; loaded/NotYetLoaded/FailedToLoad entries; zones with malformed stored RDATA, missing or malformed SOA; key sets; RRL slip 1/2; payload 512/1232/65535); per pair, exhaustively: truncation to every length, at every offset substitution by 10 values, each header count set to 0/+1/0xffff, every RR's RDLENGTH set to 0..80, the advertised EDNS payload size set to every value 0..1400 (+ large ones), junk of 1/2/11/300 octets appended, tail duplicated, both transports; then seeded random pairs of those faults. Every pair is non-trivial and distinct by construction", 60, N_CFG)
+        format!("one execution = one (request shape, server configuration) pair: {} shapes quick / 880 thorough (plain, EDNS with options and odd versions, big RRsets with swept payload sizes, TSIG-signed with known/unknown keys, truncated MACs and maximal 255-octet key/algorithm names, extra records in every section, compressed and mixed-case names, opcodes 0-15, QTYPE ANY/AXFR/IXFR/meta, QCLASS ANY/CH, NOTIFY/UPDATE-shaped, two questions, misplaced OPT/TSIG, header only) x {} configurations (empty catalog; loaded/NotYetLoaded/FailedToLoad entries; zones with malformed stored RDATA, missing or malformed SOA; key sets; RRL slip 1/2; payload 512/1232/65535); per pair, exhaustively: truncation to every length, at every offset substitution by 10 values, each header count set to 0/+1/0xffff, every RR's RDLENGTH set to 0..80, the advertised EDNS payload size set to every value 0..1400 (+ large ones), junk of 1/2/11/300 octets appended, tail duplicated, both transports; then seeded random pairs of those faults. Every pair is non-trivial and distinct by construction", 176, N_CFG)
     }
     fn assumptions() -> Vec<String> {
         vec![
